@@ -61,6 +61,13 @@ class C14(Prop):
             key = t[0][0] if nkey == 1 else tuple(t[0][:nkey])
             yield Case('reshape', ('melt', key, None, 'variable', 'value', t))
             yield Case('reshape', ('melt', None, tuple(t[0][nkey:]), 'variable', 'value', t))
+            # variables / key given as field indices
+            yield Case('reshape', ('melt', None, tuple(range(nkey, len(t[0]))), 'variable', 'value', t))
+            yield Case('reshape', ('melt', 0 if nkey == 1 else tuple(range(nkey)), None, 'variable', 'value', t))
+            yield Case('roundtrip', ('melt_cells', key, t))
+            yield Case('roundtrip', ('capture_re', rng.choice(['(\\d+)', '([a-z])(\\d)', '-(.*)', '(x)|(y)', '^(.)(.*)$']),
+                                     tuple(rng.choice(['treat-A1', 'a1', 'b22-x', 'xy', '9', 'q-']) for _ in range(rng.choice([1, 3]))),
+                                     rng.random() < 0.4))
             yield Case('roundtrip', ('recast_melt', key, t, rng.choice([None, 1, 2])))
             yield Case('reshape', ('transpose', t))
             yield Case('roundtrip', ('transpose', t))
@@ -160,6 +167,36 @@ class C14(Prop):
                 # no data rows: no variables can be discovered, only the key fields remain
                 return codec.t_bool([tuple(r) for r in got] == [tuple(keyl)])
             return codec.t_bool([tuple(r) for r in got] == [tuple(r) for r in want])
+        if kind == 'melt_cells':
+            # melt emits, per input row in order, one row per variable: (key cells..., variable name, that cell)
+            _, key, t = arg
+            keyl = list(key) if isinstance(key, tuple) else [key]
+            ki = [t[0].index(k) for k in keyl]
+            vi = [i for i in range(len(t[0])) if i not in ki]
+            want = [tuple(keyl) + ('variable', 'value')]
+            for r in t[1:]:
+                for i in vi:
+                    want.append(tuple(r[j] for j in ki) + (t[0][i], r[i]))
+            by_name = [tuple(r) for r in etl.melt(L(t), key=key)]
+            by_index = [tuple(r) for r in etl.melt(L(t), variables=vi)]
+            by_index_key = [tuple(r) for r in etl.melt(L(t), key=ki if len(ki) > 1 else ki[0])]
+            # (with variables given as indices the variable column carries the indices as given)
+            want_idx = [want[0]] + [w[:-2] + (vi[n % len(vi)], w[-1]) for n, w in enumerate(want[1:])] if vi else want
+            return codec.t_bool(by_name == want and by_index == want_idx and by_index_key == want)
+        if kind == 'capture_re':
+            # capture applies re.search: the groups of the first match anywhere in the value
+            import re
+            _, pat, vals, include = arg
+            ngroups = re.compile(pat).groups
+            names = ['g%d' % i for i in range(ngroups)]
+            src = [['id', 'txt']] + [[i, v] for i, v in enumerate(vals)]
+            got = [tuple(r) for r in etl.capture(src, 'txt', pat, names, include_original=include, fill=['-'] * ngroups)]
+            want = [('id', 'txt') + tuple(names) if include else ('id',) + tuple(names)]
+            for i, v in enumerate(vals):
+                m = re.search(pat, v)
+                groups = tuple(m.groups()) if m else tuple(['-'] * ngroups)
+                want.append(((i, v) if include else (i,)) + groups)
+            return codec.t_bool(got == want)
         if kind == 'transpose':
             t = arg[1]
             return codec.t_bool([tuple(r) for r in etl.transpose(etl.transpose(L(t)))] == [tuple(r) for r in t])
